@@ -48,6 +48,16 @@ def scriptedEnv (orc : List FrameOracle) (slots : List Bytes) (slotErr : Bytes) 
   wait := fun _ c => if c = 0xEE then some b!"nope" else none
   std := fun i _ => (orc[i]?).bind (·.std)
   forward := fun _ req => match req with
+    -- smartcard requests (codes 26, 21): the reader id's first letter scripts the reply —
+    -- S success, F failure, E an empty reply, X the agent fails, L success with trailing bytes
+    | 26 :: rest | 21 :: rest =>
+      match getString rest with
+      | some (0x53 :: _, _) => some [6]
+      | some (0x46 :: _, _) => some [5]
+      | some (0x45 :: _, _) => some []
+      | some (0x58 :: _, _) => none
+      | some (0x4c :: _, _) => some [6, 1, 2, 3]
+      | _ => some (0xAA :: req)
     | 0xFE :: _ => none
     -- code 0xFC: the underlying agent hangs up without answering (`io.EOF` from `Forward`)
     | 0xFC :: _ => none
@@ -116,6 +126,13 @@ def handleServe (op : String) (args : List String) (impl : Option (List String))
         if out.head? == some "crash" then "bad:crash"
         else if sn < d && out != ["error"] then "bad:truncated-response-accepted" else "ok"⟩
     | _, _ => some badProto
+  | "garb", [_opName, _replyS] =>
+    -- a peer that answers with a complete frame that is no response of the kind the operation
+    -- expects (and, for operations answered by a status, not the success marker): an error —
+    -- failures are reported as errors, never as a result
+    some ⟨["error"], impl.map fun out =>
+      if out.head? == some "crash" then "bad:crash"
+      else if out != ["error"] then "bad:malformed-response-accepted" else "ok"⟩
   | "rpc", opName :: rest =>
     -- layout: op, params…, slots, slotErr, keyblob, pem
     if rest.length < 4 then some badProto else
@@ -212,6 +229,25 @@ def handleServe (op : String) (args : List String) (impl : Option (List String))
             mk [showLog ["wait " ++ toString c], showUnit r]
                [showLog ["wait " ++ toString c], showUnit (Spec.C13.unitRes (base.wait 0 (UInt8.ofNat c)))]
           | none => some badProto
+        | "scadd", [idS, pinS, ltS, confS] =>
+          -- add a smartcard key: reader id, PIN, lifetime (nanoseconds), confirm
+          match bytesOfHex idS, bytesOfHex pinS, ltS.toNat?, boolOf01 confS with
+          | some id, some pin, some nanos, some conf =>
+            let req := Rpc.encAddSmartcard id pin (nanos != 0) (nanos / 1000000000) conf
+            let showS := fun (r : Rpc.SmartcardRes) => match r with
+              | .ok => "ok" | .failure => "failure" | .empty => "empty" | .connErr => "connerr"
+            mk [showLog ["forward " ++ hexOfBytes req], showS (Rpc.addSmartcardKey base 0 id pin (nanos != 0) (nanos / 1000000000) conf)]
+               [showLog ["forward " ++ hexOfBytes req], showS (Rpc.smartcardRes (base.forward 0 req))]
+          | _, _, _, _ => some badProto
+        | "scremove", [idS, pinS] =>
+          match bytesOfHex idS, bytesOfHex pinS with
+          | some id, some pin =>
+            let req := Rpc.encRemoveSmartcard id pin
+            let showS := fun (r : Rpc.SmartcardRes) => match r with
+              | .ok => "ok" | .failure => "failure" | .empty => "empty" | .connErr => "connerr"
+            mk [showLog ["forward " ++ hexOfBytes req], showS (Rpc.removeSmartcardKey base 0 id pin)]
+               [showLog ["forward " ++ hexOfBytes req], showS (Rpc.smartcardRes (base.forward 0 req))]
+          | _, _ => some badProto
         | "forward", [reqS] =>
           match bytesOfHex reqS with
           | some req =>
